@@ -106,6 +106,20 @@ EXTRA += [
                 {"k": "ifset", "n": "i", "ty": T("int"), "e": _V("x"), "t": {"k": "block", "body": [{"k": "ret", "e": {"k": "bin", "op": "%", "l": I(10), "r": _V("i")}}]}, "f": {"k": "none"}},
                 {"k": "ret", "e": I(0)}]}}}},
         {"k": "tup", "es": [_V("r"), {"k": "deref", "e": _V("n")}]}]},
+    # state that outlives a run inside one process: a run that FAILS deep inside nested calls, then programs that need
+    # some call depth / many parser steps (with the processes meeting them in different orders, and one process asking
+    # Type::from_str for a type first)
+    {"id": "det-failing-deep-recursion", "prog": [
+        {"k": "fndecl", "n": "f", "ps": [{"n": "n", "ty": T("int")}], "r": T("int"), "body": [
+            {"k": "if", "c": {"k": "bin", "op": "==", "l": _V("n"), "r": I(0)}, "t": {"k": "block", "body": [{"k": "ret", "e": {"k": "bin", "op": "/", "l": I(1), "r": {"k": "hide", "ty": T("int"), "e": I(0)}}}]}, "f": {"k": "none"}},
+            {"k": "ret", "e": {"k": "call", "f": _V("f"), "args": [{"k": "bin", "op": "-", "l": _V("n"), "r": I(1)}]}}]},
+        {"k": "call", "f": _V("f"), "args": [I(40)]}]},
+    {"id": "det-recursion-depth-60", "prog": [
+        {"k": "fndecl", "n": "g", "ps": [{"n": "n", "ty": T("int")}], "r": T("int"), "body": [
+            {"k": "if", "c": {"k": "bin", "op": "==", "l": _V("n"), "r": I(0)}, "t": {"k": "block", "body": [{"k": "ret", "e": I(0)}]}, "f": {"k": "none"}},
+            {"k": "ret", "e": {"k": "bin", "op": "+", "l": I(1), "r": {"k": "call", "f": _V("g"), "args": [{"k": "bin", "op": "-", "l": _V("n"), "r": I(1)}]}}}]},
+        {"k": "call", "f": _V("g"), "args": [I(60)]}]},
+    {"id": "det-many-statements", "prog": [{"k": "set", "n": "v%d" % i, "e": {"k": "bin", "op": "+", "l": I(i), "r": I(1)}} for i in range(160)] + [_V("v159")]},
     _union_operand(1, [{"k": "for", "n": "x", "e": _V("it"), "b": {"k": "block", "body": []}}, {"k": "ret", "e": I(1)}]),
     _union_operand(2, [{"k": "ret", "e": {"k": "reduce", "it": _V("it"), "init": I(0), "f": _ADD}}]),
     _union_operand(3, [{"k": "ret", "e": {"k": "collect", "it": {"k": "map", "it": _V("it"), "f": _ID}}}]),
@@ -176,7 +190,7 @@ def run(tier):
         extra_cases = os.path.join(work, "extra_cases.ndjson")
         C.write_ndjson(extra_cases, EXTRA)
         for proc in range(3, 3 + (6 if tier == "quick" else 16)):
-            rc, txt = C.run_vh(["det", extra_cases, "2", "p%d-" % proc, "fwd"], timeout=600)
+            rc, txt = C.run_vh(["det", extra_cases, "2", "p%d-" % proc, ("fwd", "rev", "fwd+fromstr")[proc % 3]], timeout=600)
             f.write(txt)
     records = C.read_ndjson(recs)
     # TLC does not need the structured copy
